@@ -307,6 +307,55 @@ func main() {
 				e.Strs("syncLoopErrScope", sorted(evs), "FileWriter.syncLoop: every declaration/assignment of the error sent to the batch's writers, and what is sent")
 			}
 		}
+		if f, err := r.Load("disk/index_reader.go"); err != nil {
+			e.Missing("indexReaderShape", err)
+		} else if fd := f.Func("IndexReader", "ReadIndexBlock"); fd == nil {
+			e.Missing("indexReaderShape", "IndexReader.ReadIndexBlock not found")
+		} else {
+			// the reader belongs to the sealed fraction and is shared by all its concurrent searches: it has no mutable
+			// scratch state, the compressed-block buffer is acquired per call
+			var shape []string
+			ast.Inspect(f.AST, func(x ast.Node) bool {
+				if ts, ok := x.(*ast.TypeSpec); ok && ts.Name.Name == "IndexReader" {
+					if st, ok := ts.Type.(*ast.StructType); ok {
+						for _, fl := range st.Fields.List {
+							for _, nm := range fl.Names {
+								shape = append(shape, "field "+nm.Name)
+							}
+						}
+					}
+				}
+				return true
+			})
+			for _, c := range sorted(callEvents(f, fd.Body, []string{"bytespool.AcquireLen", "bytespool.Release"}, nil)) {
+				shape = append(shape, c)
+			}
+			for _, a := range sorted(fieldAssigns(f, fd.Body, "r")) {
+				shape = append(shape, "writes r."+a)
+			}
+			e.Strs("indexReaderShape", shape, "disk.IndexReader: its fields, the per-call buffer of ReadIndexBlock, and any write to the shared reader")
+		}
+		if f, err := r.Load("fracmanager/fraction_provider.go"); err != nil {
+			e.Missing("activeRefInstance", err)
+		} else if fd := f.Func("fractionProvider", "newActiveRef"); fd == nil {
+			e.Missing("activeRefInstance", "fractionProvider.newActiveRef not found")
+		} else {
+			var evs []ev
+			ast.Inspect(fd.Body, func(x ast.Node) bool {
+				switch st := x.(type) {
+				case *ast.AssignStmt:
+					if st.Tok == token.DEFINE {
+						evs = append(evs, ev{st.Pos(), f.Render(st)})
+					}
+				case *ast.KeyValueExpr:
+					if k := f.Render(st.Key); k == "instance" || k == "frac" {
+						evs = append(evs, ev{st.Pos(), k + "=" + f.Render(st.Value)})
+					}
+				}
+				return true
+			})
+			e.Strs("activeRefInstance", sorted(evs), "newActiveRef: the entry of FracManager's fraction list is the proxyFrac (readers never hold the raw Active)")
+		}
 		if f, err := r.Load("fracmanager/list.go"); err != nil {
 			e.Missing("filterInRangeResult", err)
 		} else if fd := f.Func("List", "FilterInRange"); fd == nil {
@@ -575,5 +624,5 @@ func main() {
 			e.Bool("trySetClearsUnlessSealing", total == 2 && inside == 2 && sealingDef,
 				"trySetSuicided: `sealing := f.isSealingState()` and the only field writes are sealed=nil, active=nil under `if !sealing`")
 		}
-	}, "frac/active_indexer.go", "frac/active_index.go", "frac/active.go", "frac/active_token_list.go", "frac/inverser.go", "frac/info.go", "fracmanager/list.go", "frac/file_writer.go", "frac/sealed.go", "frac/sealed_index.go", "fracmanager/fracmanager.go", "fracmanager/fetcher.go", "storeapi/client.go", "proxy/bulk/indexer.go", "fracmanager/proxy_frac.go")
+	}, "frac/active_indexer.go", "frac/active_index.go", "frac/active.go", "frac/active_token_list.go", "frac/inverser.go", "disk/index_reader.go", "fracmanager/fraction_provider.go", "frac/info.go", "fracmanager/list.go", "frac/file_writer.go", "frac/sealed.go", "frac/sealed_index.go", "fracmanager/fracmanager.go", "fracmanager/fetcher.go", "storeapi/client.go", "proxy/bulk/indexer.go", "fracmanager/proxy_frac.go")
 }
